@@ -771,6 +771,148 @@ def handoff_results(ctx, rule, table, VIOL, PASS, site, why):
                 yield PASS(rule, "handoff/" + key, "`%s` handed on unchanged" % nm, [site(b, c[0], callee.strip("$").split("::")[-1])])
 
 
+ACC_VIEW = r"Option::<T>::(as_deref|as_ref|map|copied|cloned)$|::as_str$|::as_slice$|::as_bytes$|Deref::deref$|AsRef::as_ref$|Borrow::borrow$|Clone::clone$|PathBuf::as_path$"
+
+
+def accessor_problems(a, field):
+    """Why the accessor body `a` does not hand back `self.<field>` as stored (empty list: it does): like-named field only,
+    no condition on its value (a match on the field's own Option discriminant is a view), view calls only, no constant."""
+    probs = []
+    for bi in sorted(a.live_blocks()):
+        if a.term(bi)["k"] != "switch":
+            continue
+        c = a.cond_of_switch(bi)
+        if not c or c["kind"] != "discr":
+            probs.append("its answer depends on a condition (%s)" % ((c or {}).get("callee", (c or {}).get("kind", "?")).split("::")[-1]))
+    s = a.slice([0])
+    frs = {fs for _, fs in s.fieldreads}
+    if not frs or {fs[0] for fs in frs if fs} != {field}:
+        probs.append("it reads field(s) %s" % sorted(frs))
+    oth = [c for c in s.callee_names() if not re.search(ACC_VIEW, c)]
+    if oth:
+        probs.append("the value passes through %s" % [c.split("::")[-1] for c in oth][:3])
+    if s.const_values():
+        probs.append("a constant %r can be returned" % (s.const_values()[:2],))
+    if [d for d in s.assigns if d["stmt"]["rv"]["k"] in ("binop", "unop")]:
+        probs.append("arithmetic on the stored value")
+    return probs
+
+
+def result_handed_on(body, operand, producer, allow_part=False, _pending=None, _seen=None, _depth=0):
+    """Is `operand` the result of the call matching `producer` (directly, its `?` / Ok payload, or - allow_part - one
+    component of the tuple it returns), travelling by plain moves / wrap-unwrap pairs only and never mutated on the way?
+    Returns (True, None) or (False, reason). `pending`: projections still to be applied to the value being followed
+    (front first); an aggregate met on the way back consumes the matching projection."""
+    o = operand
+    pending = list(_pending or [])
+    seen = _seen if _seen is not None else []
+    if _depth > 6:
+        return False, "chain too deep"
+    for _ in range(24):
+        if op_const(o) is not None:
+            return False, "it is a constant"
+        p = op_place(o)
+        if p is None:
+            return False, "its source cannot be followed"
+        pj = []
+        proj = [e for e in p["proj"] if e != "deref"]
+        k = 0
+        while k < len(proj):
+            e = proj[k]
+            if isinstance(e, dict) and "downcast" in e and k + 1 < len(proj) and isinstance(proj[k + 1], dict) and proj[k + 1].get("idx") == 0:
+                pj.append(("variant", e["downcast"]))
+                k += 2
+            elif isinstance(e, dict) and "field" in e:
+                pj.append(("field", e["idx"]))
+                k += 1
+            else:
+                return False, "it is an indexed / sliced part of another value"
+        pending = pj + pending
+        l = p["local"]
+        seen.append(l)
+        ds = [d for d in body.defs().get(l, []) if d["kind"] != "mutcall"]
+        if not ds:
+            return False, "it is a parameter, not a result of `%s`" % producer.strip("$").split("::")[-1]
+        if len(ds) > 1:
+            for d in ds:
+                if d["kind"] == "call":
+                    ok, why = _handed_call(body, d, producer, pending, allow_part, seen, _depth)
+                elif d["kind"] == "assign":
+                    ok, why = _handed_assign(body, d, producer, pending, allow_part, seen, _depth)
+                else:
+                    ok, why = False, "one of its sources cannot be followed"
+                if not ok:
+                    return ok, why
+            m = mutated_in_place(body, seen)
+            return (False, "it is modified in place") if m else (True, None)
+        d = ds[0]
+        if d["kind"] == "call":
+            t = d["term"]
+            cal = t["callee"]
+            if re.search(r"ops::Try::branch$", cal) and pending and pending[0] == ("variant", "Continue"):
+                pending = [("variant", "Ok")] + pending[1:]
+                o = t["args"][0]
+                continue
+            if re.search(r"convert::Into::into$|convert::From::from$", cal) and not pending:
+                o = t["args"][0]
+                continue
+            ok, why = _handed_call(body, d, producer, pending, allow_part, seen, _depth)
+            if ok:
+                m = mutated_in_place(body, seen)
+                if m:
+                    return False, "it is modified in place after `%s` returned it" % cal.split("::")[-1]
+            return ok, why
+        if d["kind"] != "assign":
+            return False, "its source cannot be followed"
+        rv = d["stmt"]["rv"]
+        if rv["k"] == "use" or (rv["k"] == "cast" and "Unsize" in rv.get("kind", "")):
+            o = rv["op"]
+            continue
+        if rv["k"] == "ref" and not rv.get("mut"):
+            o = {"copy": rv["place"]}
+            continue
+        if rv["k"] == "aggregate" and pending:
+            kind, what = pending[0]
+            if kind == "variant" and rv.get("variant") is not None and len(rv["ops"]) == 1:
+                if rv["variant"] != what and not (what == "Continue" and rv["variant"] == "Ok"):
+                    return True, None  # another variant: this source never reaches the payload followed
+                pending = pending[1:]
+                o = rv["ops"][0]
+                continue
+            if kind == "field" and rv.get("tuple") and what < len(rv["ops"]):
+                pending = pending[1:]
+                o = rv["ops"][what]
+                continue
+        return False, "it is computed (%s), not moved on" % rv["k"]
+    return False, "chain too long"
+
+
+def _handed_call(body, d, producer, pending, allow_part, seen, depth):
+    cal = d["term"]["callee"]
+    if re.search(producer, cal):
+        rest = [x for x in pending if x not in (("variant", "Ok"), ("variant", "Continue"), ("variant", "Ready"))]
+        if not rest or (allow_part and len(rest) == 1 and rest[0][0] == "field"):
+            return True, None
+        return False, "it is a part %s of what `%s` returned" % (rest, cal.split("::")[-1])
+    if re.search(r"ops::Try::branch$", cal) and pending and pending[0] == ("variant", "Continue"):
+        return result_handed_on(body, d["term"]["args"][0], producer, allow_part, [("variant", "Ok")] + pending[1:], seen, depth + 1)
+    if re.search(r"ops::FromResidual::from_residual$", cal) and pending and pending[0] in (("variant", "Ok"), ("variant", "Continue"), ("variant", "Some")):
+        return True, None  # the early-exit value of a `?`: an Err / None, never the payload followed
+    return False, "it is the result of `%s`" % cal.split("::")[-1]
+
+
+def _handed_assign(body, d, producer, pending, allow_part, seen, depth):
+    rv = d["stmt"]["rv"]
+    if rv["k"] == "use":
+        return result_handed_on(body, rv["op"], producer, allow_part, pending, seen, depth + 1)
+    if rv["k"] == "aggregate" and pending and pending[0][0] == "variant" and rv.get("variant") is not None and len(rv["ops"]) == 1:
+        what = pending[0][1]
+        if rv["variant"] != what and not (what == "Continue" and rv["variant"] == "Ok"):
+            return True, None
+        return result_handed_on(body, rv["ops"][0], producer, allow_part, pending[1:], seen, depth + 1)
+    return False, "one of its sources is computed (%s)" % rv["k"]
+
+
 # calls that change a text / byte string's content (as opposed to re-typing, borrowing, copying, concatenating it)
 TRANSFORM = (r"(str>|\[u8\]>|\[T\]>|String|Vec::<T, A>|canonical)::(trim\w*|strip_\w+|to_(ascii_)?(lower|upper)case|make_ascii_(lower|upper)case|replace\w*|truncate|pop|remove|drain|retain\w*|dedup\w*|sort\w*|reverse|"
              r"r?split\w*|chars|char_indices|bytes|escape_\w+|encode_upper|to_uppercase|to_lowercase|repeat|swap\w*|rotate_\w+|fill\w*|insert|insert_str|splice)$"
